@@ -704,7 +704,7 @@ func TestVerif_C07(t *testing.T) {
 	// ---- phase 1: direct planning, G goroutines x N statements, several rounds
 	G := 32
 	N := 400
-	rounds := kit.N(5, 40)
+	rounds := kit.N(4, 40)
 	procs := []int{2, 4, 16}
 	old := runtime.GOMAXPROCS(0)
 	defer runtime.GOMAXPROCS(old)
